@@ -45,7 +45,8 @@ def fam13_chunk(chunk):
     res = []
     def handle(items):
         nonlocal w
-        rules, rules3 = [], []
+        # the forced-evaluation twins are compiled behind 64 other rules: their evaluation must not depend on prefilled per-rule state either
+        rules, rules3 = [], [("pad%d" % k, "", "filesize >= 0" if k % 2 else "filesize < 0") for k in range(64)]
         for (idx, tag, src, exp, ids) in items:
             rules.append(("r%d" % idx, c04.strdecl(ids), src))
             rules3.append(("r%d" % idx, c04.strdecl(ids), "(%s) or filesize < 0" % src))
@@ -125,7 +126,7 @@ def famw_chunk(chunk):
             if all((b & m) == val for b, (val, m) in zip(var, toks)): want.append([len(buf), len(var)])
             buf += var + b"...."
         extra = [] if table == "default" else ["atomq 0 %s 0" % b"".join(x + b"\0" for x in wins if x != table).hex()]
-        for flags in (0, 8):
+        for flags in (0, 1):
             cmds = ["reset", "compiler 0"] + extra + ["add 0 - " + yv.hx("rule r { strings: $a = { %s } condition: #a >= 0 }" % decl), "getrules 0 0", "cdestroy 0", "scanner 0 0"]
             rep = w.batch(cmds + ["scan target=s0 via=mem flags=%d data=%s" % (flags, yv.hx(buf))])
             add = [r for r in rep if "errors" in r][0]
@@ -274,7 +275,7 @@ def main():
             nw += 1; ck.cov["evaluations"] += 256
             if st != "ok":
                 ck.violation("C12:atom-table:masked-hex:rejected", dict(string=decl, table=str(table), messages=got)); continue
-            if flags == 8:
+            if flags == 1:
                 got = sorted(set(tuple(x) for x in got)); want_ = sorted(set(tuple(x) for x in want))
                 ok = set(got) <= set(want_) and (bool(got) == bool(want_))        # fast mode may stop at the first occurrence
             else:
